@@ -123,6 +123,27 @@ fn check_span_roundtrip_inner<const N: usize>() {
     kani::cover!(s < e);
 }
 
+// span_to_range is position-wise: both ends equal the reference positions (LSP line / UTF-16 column)
+fn check_span_to_range<const N: usize>() {
+    let (a, len) = text::<N>();
+    let src = &a[..len];
+    let s: usize = kani::any();
+    let e: usize = kani::any();
+    kani::assume(s <= e && e <= len);
+    let r = span_to_range(src, Span::new(s, e));
+    let (sl, sc) = ref_position(src, s);
+    let (el, ec) = ref_position(src, e);
+    assert!(r.start.line == sl && r.start.character == sc);
+    assert!(r.end.line == el && r.end.character == ec);
+    kani::cover!(s < e && ec > 2);
+}
+
+#[kani::proof]
+#[kani::unwind(5)]
+fn span_to_range_ref_3() { check_span_to_range::<3>() }
+#[kani::proof]
+#[kani::unwind(6)]
+fn span_to_range_ref_4() { check_span_to_range::<4>() }
 #[kani::proof]
 #[kani::unwind(5)]
 fn index_to_position_ref_3() { check_index_to_position::<3>() }
